@@ -63,7 +63,7 @@ func (fv *FV) ghostAfter(st *State, s ast.Stmt) {
 		}
 		want := strings.Trim(strings.TrimSpace(g.Anchor[6:]), "\"")
 		if normSpace(want) == normSpace(text) {
-			fv.execGhost(st, g, s.Pos())
+			fv.execGhost(st, g, s.End())
 		}
 	}
 }
@@ -407,10 +407,46 @@ func (fv *FV) rolePC(ghost string) *PkgContracts {
 	return fv.pc
 }
 
-func (fv *FV) traceComps(rf []string) []string { return nil }
+func (fv *FV) traceComps(rf []string) []string {
+	if len(rf) < 2 {
+		return nil
+	}
+	var out []string
+	pre := "T:" + rf[1] + ":"
+	for key := range fv.compSort {
+		if strings.HasPrefix(key, pre) {
+			out = append(out, key)
+		}
+	}
+	n := pre + "n"
+	fv.compSort[n] = sInt
+	found := false
+	for _, k := range out {
+		if k == n {
+			found = true
+		}
+	}
+	if !found {
+		out = append(out, n)
+	}
+	return out
+}
 
+// role "trace NAME": every call of the callback appends its arguments to the ghost trace NAME.
 func (fv *FV) applyTrace(st *State, rf []string, f Term, args []Term, pos token.Pos) []Term {
-	fv.fail(pos, "trace role not implemented")
+	if len(rf) < 2 {
+		fv.fail(pos, "trace role: `trace NAME`")
+	}
+	nkey := "T:" + rf[1] + ":n"
+	fv.compSort[nkey] = sInt
+	n := fv.heapGet(st, nkey)
+	for j, a := range args {
+		key := fmt.Sprintf("T:%s:%d:%s", rf[1], j, a.Sort)
+		fv.compSort[key] = arr(sInt, a.Sort)
+		fv.traceTypes[key] = a.T
+		fv.heapSet(st, key, sto(fv.heapGet(st, key), n, a.S))
+	}
+	fv.heapSet(st, nkey, app("+", n, "1"))
 	return nil
 }
 
@@ -532,6 +568,18 @@ func (fv *FV) applyLemma(st *State, env *Env, g *GhostStmt, pos token.Pos) {
 	lenv := &Env{fv: fv, st: st, old: env.old, names: map[string]Term{}, pc: lm.Pkg, qdepth: 0}
 	for i, p := range lm.Params {
 		lenv.names[p.Name] = fv.spec(env, call.Args[i])
+	}
+	if lm.Trusted || lm.InductOn == "" {
+		// a trusted lemma (a stated mathematical fact, listed among the assumptions) or a lemma without induction:
+		// the instance is assumed, respectively asserted, for the given arguments
+		phi := fv.specBool(lenv, lm.Expr)
+		if lm.Trusted {
+			fv.assumptions["trusted lemma "+lm.Name+" ("+shortPkg(lm.Pkg.Path)+"): "+strings.TrimSpace(lm.Src)] = true
+		} else {
+			fv.oblige(st, "lemma."+lm.Name, phi, "lemma "+lm.Name+": "+lm.Src, g.Tags, pos)
+		}
+		fv.assume(st, phi)
+		return
 	}
 	imp, ok := lm.Expr.(*SBin)
 	var premise SExpr
